@@ -3,8 +3,10 @@
 //!
 //! Case lines (`<spec>` = `<schema>:<batches>:<rows>:<seed>:<props>` regenerates the input):
 //!   C18 pqf <md|ab|sfr> <spec> <len> <k> <tail-hex>      model: reject | SKIP    impl: reject|accept
-//!   C18 pqwfault <aw|awf> <spec> <sched> <trace>         model: accepted=<n> res=ok|err
+//!   C18 pqwfault <aw|awf|sfw> <spec> <sched> <trace>         model: accepted=<n> res=ok|err
 //!   C18 pqrfault <ab|md> <spec> <E|I|S|A> <k> <n>        model: res=err | res=ok batches=<n> | SKIP
+//!   C18 pqasync <spec> <E|T> <k> <n>                     model: res=err (E: fetch k fails) | SKIP (T: fetch k never
+//!                                                        completes, the caller drops the future and asks again)
 //! `props`: 0 default, 1 plain/uncompressed/no dictionary (+ an embedded complete Parquet file in
 //! schema 4), 2 tiny row groups + bloom filters, 3 page-level statistics + small pages.
 #[path = "../../../h-core/src/c18_common.rs"]
@@ -160,7 +162,43 @@ fn run_pqf(t: &[&str], fails: &mut Fails) -> String {
 
 // ------------------------------------------------------------------------------ writer faults
 
+/// low-level API: `SerializedFileWriter` with one row group per batch (int32 + optional binary)
+fn drive_sfw(inp: &Input, spec: &str, sink: FaultSink, notes: &mut Vec<String>) -> PResult<()> {
+    use parquet::data_type::{ByteArray, ByteArrayType, Int32Type};
+    let schema = Arc::new(parquet::schema::parser::parse_message_type("message m { required int32 a; optional binary b; }")?);
+    let mut w = parquet::file::writer::SerializedFileWriter::new(sink.clone(), schema, Arc::new(props(spec_props(spec))))?;
+    let mut go = || -> PResult<()> {
+        for (bi, b) in inp.batches.iter().enumerate() {
+            let n = b.num_rows();
+            let a: Vec<i32> = (0..n as i32).map(|i| i * 7 + bi as i32).collect();
+            let defs: Vec<i16> = (0..n).map(|i| (i % 3 != 0) as i16).collect();
+            let bv: Vec<ByteArray> = (0..n).filter(|i| i % 3 != 0).map(|i| ByteArray::from(format!("v{i}PAR1").as_str())).collect();
+            let mut rg = w.next_row_group()?;
+            let mut c = rg.next_column()?.expect("column a");
+            c.typed::<Int32Type>().write_batch(&a, None, None)?;
+            c.close()?;
+            let mut c = rg.next_column()?.expect("column b");
+            c.typed::<ByteArrayType>().write_batch(&bv, Some(&defs), None)?;
+            c.close()?;
+            rg.close()?;
+        }
+        Ok(())
+    };
+    let mut res = go();
+    if res.is_ok() {
+        res = w.finish().map(|_| ());
+    }
+    if res.is_err() && sink.failed() && w.finish().is_ok() {
+        notes.push("finish-ok-after-error".into());
+    }
+    sink.mark_done();
+    res
+}
+
 fn drive_writer(writer: &str, inp: &Input, spec: &str, sink: FaultSink, notes: &mut Vec<String>) -> PResult<()> {
+    if writer == "sfw" {
+        return drive_sfw(inp, spec, sink, notes);
+    }
     let mut w = ArrowWriter::try_new(sink.clone(), inp.schema.clone(), Some(props(spec_props(spec))))?;
     let mut res = Ok(());
     for b in &inp.batches {
@@ -213,6 +251,26 @@ fn run_wfault(t: &[&str], fails: &mut Fails) -> String {
     }
     for n in notes {
         fails.push((n.clone(), n));
+    }
+    if res.is_ok() {
+        // the writer said Ok: what the sink holds must read back as the rows written
+        let bytes = Bytes::from(data.clone());
+        let why = if writer == "sfw" {
+            match read_sfr(bytes) {
+                Ok(n) if n == total_rows(&inp.batches) => None,
+                Ok(n) => Some(format!("reads back as {n} rows, {} written", total_rows(&inp.batches))),
+                Err(e) => Some(format!("rejected by the reader: {e}")),
+            }
+        } else {
+            match read_ab(bytes) {
+                Ok(b) if same_rows(&inp.schema, &b, &inp.batches) => None,
+                Ok(_) => Some("reads back as different rows".into()),
+                Err(e) => Some(format!("rejected by the reader: {e}")),
+            }
+        };
+        if let Some(why) = why {
+            fails.push(("ok-but-unreadable".into(), format!("output of a successful writer {why}")));
+        }
     }
     format!("accepted={} res={}", data.len(), if res.is_ok() { "ok" } else { "err" })
 }
@@ -299,6 +357,124 @@ fn run_rfault(t: &[&str], fails: &mut Fails) -> String {
     if ok { format!("res=ok batches={}", got.len()) } else { "res=err".into() }
 }
 
+// ------------------------------------------------------------------------------- async stream
+
+/// `AsyncFileReader` over bytes: `get_bytes` call `k` fails (mode E) or never completes (mode T)
+struct AsyncSrc {
+    data: Bytes,
+    mode: char,
+    k: usize,
+    calls: Arc<Mutex<usize>>,
+}
+impl parquet::arrow::async_reader::AsyncFileReader for AsyncSrc {
+    fn get_bytes(&mut self, range: std::ops::Range<u64>) -> futures::future::BoxFuture<'_, PResult<Bytes>> {
+        use futures::FutureExt;
+        let i = {
+            let mut c = self.calls.lock().unwrap();
+            *c += 1;
+            *c - 1
+        };
+        if i == self.k && self.mode == 'E' {
+            return futures::future::ready(Err(ParquetError::External(Box::new(std::io::Error::other("injected: fetch failed"))))).boxed();
+        }
+        if i == self.k && self.mode == 'T' {
+            return futures::future::pending().boxed();
+        }
+        let b = self.data.slice(range.start as usize..range.end as usize);
+        futures::future::ready(Ok(b)).boxed()
+    }
+    fn get_metadata<'a>(
+        &'a mut self,
+        _o: Option<&'a parquet::arrow::arrow_reader::ArrowReaderOptions>,
+    ) -> futures::future::BoxFuture<'a, PResult<Arc<parquet::file::metadata::ParquetMetaData>>> {
+        use futures::FutureExt;
+        let r = ParquetMetaDataReader::new().parse_and_finish(&self.data).map(Arc::new);
+        futures::future::ready(r).boxed()
+    }
+}
+
+/// drive `ParquetRecordBatchStream::next_row_group`; a future that is still pending after a few
+/// polls is dropped (the caller's timeout) and the call is retried.
+/// Returns (batches, saw_error, timeouts, number of get_bytes calls)
+fn run_async(data: Bytes, mode: char, k: usize) -> (usize, bool, usize, usize) {
+    use std::future::Future;
+    use std::task::{Context, Poll};
+    let calls = Arc::new(Mutex::new(0usize));
+    let src = AsyncSrc { data, mode, k, calls: calls.clone() };
+    let w = futures::task::noop_waker();
+    let mut cx = Context::from_waker(&w);
+    let mut fb = Box::pin(parquet::arrow::ParquetRecordBatchStreamBuilder::new(src));
+    let builder = loop {
+        if let Poll::Ready(v) = fb.as_mut().poll(&mut cx) {
+            break v;
+        }
+    };
+    let mut stream = match builder.and_then(|b| b.with_batch_size(4).build()) {
+        Ok(s) => s,
+        Err(_) => return (0, true, 0, *calls.lock().unwrap()),
+    };
+    let (mut batches, mut err, mut timeouts) = (0usize, false, 0usize);
+    for _round in 0..10000 {
+        let mut fut = Box::pin(stream.next_row_group());
+        let mut out = None;
+        for _ in 0..4 {
+            if let Poll::Ready(v) = fut.as_mut().poll(&mut cx) {
+                out = Some(v);
+                break;
+            }
+        }
+        drop(fut);
+        match out {
+            None => {
+                // timeout: the pending future was dropped; the caller asks again
+                timeouts += 1;
+                if timeouts > 3 {
+                    break;
+                }
+            }
+            Some(Ok(Some(reader))) => {
+                for b in reader {
+                    match b {
+                        Ok(_) => batches += 1,
+                        Err(_) => {
+                            err = true;
+                            break;
+                        }
+                    }
+                }
+            }
+            Some(Ok(None)) => break,
+            Some(Err(_)) => {
+                err = true;
+                // documented: all subsequent calls return Ok(None); keep going to observe it
+            }
+        }
+    }
+    (batches, err, timeouts, *calls.lock().unwrap())
+}
+
+/// C18 pqasync <spec> <E|T> <k> <n>
+fn run_pqasync(t: &[&str], fails: &mut Fails) -> String {
+    let (spec, mode, k, n) = (t[2], t[3].chars().next().unwrap(), t[4].parse::<usize>().unwrap(), t[5]);
+    let data = Bytes::from(file_bytes(spec).as_ref().clone());
+    let (good, gerr, _, _) = run_async(data.clone(), 'N', 0);
+    if gerr || good.to_string() != n {
+        return "bad-case".into();
+    }
+    let (got, err, timeouts, _) = run_async(data, mode, k);
+    if got > good {
+        fails.push(("rows-not-written".into(), format!("{got} batches under a fault, {good} without")));
+    }
+    if err {
+        "res=err".into()
+    } else if timeouts > 0 {
+        // no error was ever reported although a request was abandoned
+        format!("res=ok batches={got} timeouts={timeouts}")
+    } else {
+        format!("res=ok batches={got}")
+    }
+}
+
 // --------------------------------------------------------------------------------------- main
 
 fn run_case_inner(line: &str, fails: &mut Fails) -> String {
@@ -308,6 +484,7 @@ fn run_case_inner(line: &str, fails: &mut Fails) -> String {
         "pqf" => run_pqf(&t, fails),
         "pqwfault" => run_wfault(&t, fails),
         "pqrfault" => run_rfault(&t, fails),
+        "pqasync" => run_pqasync(&t, fails),
         _ => "bad-op".into(),
     }
 }
@@ -354,8 +531,8 @@ fn gen_pqf(sink: &mut Sink, rng: &mut Rng) {
     }
 }
 
-fn gen_wfault(sink: &mut Sink, rng: &mut Rng) {
-    let writer = *rng.pick(&["aw", "awf"]);
+fn gen_wfault(sink: &mut Sink, rng: &mut Rng, i: usize) {
+    let writer = ["aw", "sfw", "awf"][i % 3];
     // every third input is large enough to overflow the writer's internal 8 KiB buffer
     let spec = if rng.chance(1, 4) {
         format!("1:{}:{}:{}:{}", 1 + rng.usize(2), 1100 + rng.usize(400), rng.usize(100000), rng.usize(4))
@@ -388,6 +565,33 @@ fn gen_rfault(sink: &mut Sink, rng: &mut Rng) {
     emit(sink, line, &format!("op:pqrfault reader:{reader} fault:A nt"));
 }
 
+fn gen_async(sink: &mut Sink, rng: &mut Rng) {
+    let spec = format!("{}:{}", gen_spec(rng, &[0, 1, 2, 3, 4, 5, 6]), rng.usize(4));
+    let data = Bytes::from(file_bytes(&spec).as_ref().clone());
+    let (good, err, _, calls) = run_async(data, 'N', 0);
+    assert!(!err, "fault-free async read of {spec}");
+    for k in 0..calls {
+        for mode in ["E", "T"] {
+            let line = format!("C18 pqasync {spec} {mode} {k} {good}");
+            let (a, fails) = run_case(&line);
+            // a request abandoned by the caller (timeout) followed by a clean end with rows missing:
+            // recorded as a probe (cancellation is outside the property's fault list), never a violation
+            let probe = if mode == "T" && a.starts_with("res=ok") && a != format!("res=ok batches={good}") {
+                "probe:cancel-then-clean-end-rows-lost"
+            } else if mode == "T" {
+                "probe:cancel-other"
+            } else {
+                ""
+            };
+            let tags = format!("op:pqasync fault:{mode} schema:{} nt {probe}", schema_name(spec_schema(&spec)));
+            for (what, detail) in fails {
+                sink.oracle_failure(line.clone(), format!("{what}: {detail}"), &format!("{tags} fail:{what}"));
+            }
+            sink.case(line, a, &tags);
+        }
+    }
+}
+
 fn main() {
     let args = parse_args();
     if std::env::var("VERIF_LOUD").is_err() {
@@ -404,8 +608,11 @@ fn main() {
         for _ in 0..n {
             gen_pqf(&mut sink, &mut rng);
         }
-        for _ in 0..n * 2 {
-            gen_wfault(&mut sink, &mut rng);
+        for i in 0..n * 2 {
+            gen_wfault(&mut sink, &mut rng, i);
+        }
+        for _ in 0..n {
+            gen_async(&mut sink, &mut rng);
         }
         for _ in 0..n * 2 {
             gen_rfault(&mut sink, &mut rng);
